@@ -82,6 +82,13 @@ def cmd_run(args):
     supplemental_data = load_supplemental_sources(config, config_dir)
     if not args.quiet and supplemental_data:
         print(f"  Supplemental sources: {', '.join(supplemental_data.keys())}")
+    if not args.quiet:
+        # Like a transaction source whose file is missing: say so, or rules that query the
+        # source just never match and nothing tells the user why
+        for source in data_sources:
+            if source.get('_supplemental', False) and source.get('name', '').lower() not in supplemental_data:
+                print(f"  {source.get('name', '?')}: Supplemental source not loaded - {source.get('file')} "
+                      f"(missing, unreadable or without rows); rules that query it will not match")
 
     # Parse transactions from configured data sources (skip supplemental)
     all_txns = []
